@@ -23,7 +23,8 @@ Statements, per C error enum `e`:
 * `MappingInjective` distinct Rust variants go to distinct C variants;
 * `MappingOnto`     every C variant is the image of a Rust variant or is returned directly by the binding.
 
-`WellFormed` and `CodesDistinct` hold for the whole table.  The seven others are FALSE for the current sources:
+`WellFormed`, `CodesDistinct`, `MappingTotal` and `MappingInjective` hold for the whole table (the last two since the
+repairs 02dd395 / ff8765f in /repo).  The five others are FALSE for the current sources:
 for each of them the full statement is kept, its negation is proved (`…_refuted`), the strongest true variant
 `…_partial` excludes exactly the entries listed by name in an `…Exceptions` list, and `…_exceptions_exact`
 proves that every listed exception is a genuine offender (so an exception that stops offending — the source
@@ -174,72 +175,32 @@ theorem names_distinct_exceptions_exact :
     ∀ x ∈ duplicateNameExceptions, ∃ e ∈ allEnums, e.name = x.1 ∧ ∃ v ∈ e.variants, v.name = x.2 ∧
       ∃ w ∈ keptVariants e, w.name ≠ v.name ∧ w.printable = v.printable := by decide +kernel
 
-/-! ## the Rust → C mapping is total — FALSE: `SystemInFlux` of two open-or-create errors has no C value -/
+/-! ## the Rust → C mapping is total and injective — hold for the whole table
+    (false until the repairs 02dd395 and ff8765f in /repo: `SystemInFlux` of the pub-sub and event
+    open-or-create errors ended in the self-recursive arm `e => e.into_c_int()`;
+    `ServiceRemoveError::VersionMismatch` was mapped to `INTERRUPT`, `EventOpenError::Interrupt` to `C_INTERRUPT`) -/
 
-/-- (C enum, Rust enum, Rust variant).  `impl IntoCInt for PublishSubscribeOpenOrCreateError` and
-    `… for EventOpenOrCreateError` end in the arm `e => e.into_c_int()`, which for the only remaining variant
-    `SystemInFlux` calls the same function with the same value: unbounded recursion instead of
-    `SYSTEM_IN_FLUX` (the request-response binding has the explicit arm). -/
-def totalityExceptions : List (Name × Name × Name) :=
-  [(n! "iox2_event_open_or_create_error_e", n! "EventOpenOrCreateError", n! "SystemInFlux"),
-   (n! "iox2_pub_sub_open_or_create_error_e", n! "PublishSubscribeOpenOrCreateError", n! "SystemInFlux")]
+/-- C18: every (flattened) variant of every mapped Rust error enum has a C code -/
+theorem mapping_total : ∀ e ∈ allEnums, MappingTotal e := by decide +kernel
 
--- full statement (false): ∀ e ∈ allEnums, MappingTotal e
-theorem mapping_total_refuted : ¬ ∀ e ∈ allEnums, MappingTotal e := by decide +kernel
+/-- C18: within every mapping distinct Rust variants go to distinct C variants -/
+theorem mapping_injective : ∀ e ∈ allEnums, MappingInjective e := by decide +kernel
 
-theorem mapping_total_partial :
-    ∀ e ∈ allEnums, ∀ m ∈ e.mappings, ∀ r ∈ m.rustVariants,
-      (e.name, m.rustEnum, r) ∉ totalityExceptions → r ∈ m.table.map (·.1) := by decide +kernel
-
-theorem mapping_total_exceptions_exact :
-    ∀ x ∈ totalityExceptions, ∃ e ∈ allEnums, e.name = x.1 ∧ ∃ m ∈ e.mappings, m.rustEnum = x.2.1 ∧
-      x.2.2 ∈ m.rustVariants ∧ x.2.2 ∉ m.table.map (·.1) := by decide +kernel
-
-/-! ## the Rust → C mapping is injective — FALSE: two pairs of Rust variants share a C code -/
-
-/-- (C enum, Rust enum, Rust variant): rows whose C variant is also the image of another row.
-    * `ServiceRemoveError::VersionMismatch => iox2_service_remove_error_e::INTERRUPT` (node.rs): same code as
-      `Interrupt`; `VERSION_MISMATCH` is never returned.
-    * `EventOpenError::Interrupt => …::C_INTERRUPT` (service_builder_event.rs): the open failure is reported
-      with the code of the create failure, so `EventOpenOrCreateError` maps two variants to `C_INTERRUPT`;
-      `O_INTERRUPT` is never returned. -/
-def injectivityExceptions : List (Name × Name × Name) :=
-  [(n! "iox2_event_open_or_create_error_e", n! "EventOpenOrCreateError", n! "EventOpenError(Interrupt)"),
-   (n! "iox2_service_remove_error_e", n! "ServiceRemoveError", n! "VersionMismatch")]
-
-def keptRows (e : CEnum) (m : Mapping) : List (Name × Name) :=
-  m.table.filter (fun r => (e.name, m.rustEnum, r.1) ∉ injectivityExceptions)
-
--- full statement (false): ∀ e ∈ allEnums, MappingInjective e
-theorem mapping_injective_refuted : ¬ ∀ e ∈ allEnums, MappingInjective e := by decide +kernel
-
-theorem mapping_injective_partial :
-    ∀ e ∈ allEnums, ∀ m ∈ e.mappings, ((keptRows e m).map (·.2)).Nodup := by decide +kernel
-
-theorem mapping_injective_exceptions_exact :
-    ∀ x ∈ injectivityExceptions, ∃ e ∈ allEnums, e.name = x.1 ∧ ∃ m ∈ e.mappings, m.rustEnum = x.2.1 ∧
-      ∃ r ∈ m.table, r.1 = x.2.2 ∧ ∃ r' ∈ keptRows e m, r'.1 ≠ r.1 ∧ r'.2 = r.2 := by decide +kernel
-
-/-! ## every C variant is produced — FALSE: twelve codes are never returned -/
+/-! ## every C variant is produced — FALSE: eight codes are never returned -/
 
 /-- (C enum, C variant): declared, but neither the image of a Rust variant nor returned by binding code.
-    * `SYSTEM_IN_FLUX` (event, pub-sub), `O_INTERRUPT` (event), `VERSION_MISMATCH` (service remove): consequences of
-      the totality / injectivity defects above;
     * `C_OLD_CONNECTION_STILL_ACTIVE` (event): `EventCreateError` has no such variant;
     * `TERMINATION_REQUEST`, `INTERRUPT` of `iox2_waitset_run_error_e`: `WaitSetRunError` has three variants only
       (termination/interrupt are reported through `iox2_waitset_run_result_e`);
-    * `iox2_flatbuffer_find_schema_file_error_e`: declared in flatbuffer.rs, not used by any function of the crate. -/
+    * `iox2_flatbuffer_find_schema_file_error_e`: declared in flatbuffer.rs, not used by any function of the crate.
+    (`SYSTEM_IN_FLUX` ×2, `O_INTERRUPT`, `VERSION_MISMATCH` left the list with the repairs 02dd395 / ff8765f.) -/
 def ontoExceptions : List (Name × Name) :=
-  [(n! "iox2_event_open_or_create_error_e", n! "O_INTERRUPT"),
-   (n! "iox2_event_open_or_create_error_e", n! "C_OLD_CONNECTION_STILL_ACTIVE"),
-   (n! "iox2_event_open_or_create_error_e", n! "SYSTEM_IN_FLUX"),
+  [(n! "iox2_event_open_or_create_error_e", n! "C_OLD_CONNECTION_STILL_ACTIVE"),
    (n! "iox2_flatbuffer_find_schema_file_error_e", n! "INVALID_TYPE_NAME_CHARACTERS"),
    (n! "iox2_flatbuffer_find_schema_file_error_e", n! "INVALID_TYPE_NAMESPACE_CHARACTERS"),
    (n! "iox2_flatbuffer_find_schema_file_error_e", n! "INVALID_ROOT_PATH"),
    (n! "iox2_flatbuffer_find_schema_file_error_e", n! "BUFFER_TOO_SMALL"),
    (n! "iox2_flatbuffer_find_schema_file_error_e", n! "NO_SCHEMA_FILE_FOUND"),
-   (n! "iox2_pub_sub_open_or_create_error_e", n! "SYSTEM_IN_FLUX"),
-   (n! "iox2_service_remove_error_e", n! "VERSION_MISMATCH"),
    (n! "iox2_waitset_run_error_e", n! "TERMINATION_REQUEST"),
    (n! "iox2_waitset_run_error_e", n! "INTERRUPT")]
 
@@ -254,9 +215,11 @@ theorem mapping_onto_exceptions_exact :
     ∀ x ∈ ontoExceptions, ∃ e ∈ allEnums, e.name = x.1 ∧ ∃ v ∈ e.variants, v.name = x.2 ∧
       v.name ∉ image e ∧ v.name ∉ e.direct := by decide +kernel
 
-/-! ## the request-response open-or-create mapping is the pattern the two others should follow:
-    total, and `SYSTEM_IN_FLUX` is produced (non-vacuity of `MappingTotal` on a three-level mapping) -/
-example : ∃ e ∈ allEnums, e.name = n! "iox2_request_response_open_or_create_error_e" ∧ MappingTotal e ∧
-    MappingInjective e ∧ MappingOnto e ∧ e.mappings.length = 3 := by decide +kernel
+/-! ## non-vacuity on the three-level mappings: the three open-or-create enums have three mappings each,
+    are total and injective, and `SYSTEM_IN_FLUX` is in the image of each -/
+example : ∀ n ∈ [n! "iox2_request_response_open_or_create_error_e", n! "iox2_pub_sub_open_or_create_error_e",
+      n! "iox2_event_open_or_create_error_e"],
+    ∃ e ∈ allEnums, e.name = n ∧ MappingTotal e ∧ MappingInjective e ∧ e.mappings.length = 3 ∧
+      n! "SYSTEM_IN_FLUX" ∈ image e := by decide +kernel
 
 end Iox2.C18
